@@ -156,6 +156,15 @@ def run_transform(ctx, tname):
         for row in v:
             row[int(rng.integers(row.size))], row[int(rng.integers(row.size))] = -100.0, 100.0
         meta['kind'] = 'byte_range'
+    if tname == 'geodesic' and meta['kind'] not in ('int_range',) and rng.integers(3) == 0:
+        # the maximum is attained by several pairs (categorical models, ratings): ALL maximal edges leave the graph
+        for row in v:
+            jj = rng.choice(row.size, size=min(row.size, int(rng.integers(2, 4))), replace=False)
+            row[jj] = row.max()
+        meta['kind'] = meta['kind'] + '+tied_max'
+        if any(np.ptp(r) < 1e-9 for r in v):
+            ctx.count('rejected_degenerate')      # every pair maximal: a constant RDM has no min-max form
+            return
     if tname == 'rank':
         params['method'] = gen.pick(rng, ['average', 'average', 'average', 'min', 'max', 'dense', 'ordinal'])
     if tname == 'geotopological':
@@ -329,6 +338,21 @@ def run_invariance(ctx):
             if not np.array_equal(np.asarray(base), np.asarray(aft)):
                 ctx.fail('invariance:rank', sig, f'{m} on a condition subset changed after rank_transform: '
                          f'{maxdiff(base, aft)}', dict(v1=v1, v2=v2, method=meth, subset=sub))
+    # the RDMs object compared above receives new values in place (same shape): a rank-based comparison ranks the values
+    # the object holds now
+    v_new = gen.rdm_vectors(rng, v1.shape[0], n_cond, 'pos')
+    if not any(np.ptp(r) < 1e-9 for r in v_new):
+        o1.dissimilarities[:] = v_new
+        for m in RANK_MEASURES:
+            sig = dict(measure=m, map='values_rewritten_in_place')
+            ok, got = ctx.guarded('invariance:rank', sig, compare, o1, o2, method=m)
+            ok2, want = ctx.guarded('invariance:rank', sig, compare, RDMs(v_new.copy()), RDMs(v2.copy()), method=m)
+            if ok and ok2:
+                ctx.case('invariance:rank', sig)
+                if not close(np.asarray(got), np.asarray(want), 1e-12, 1e-13):
+                    ctx.fail('invariance:rank', sig, f'{m} of an object whose values were rewritten in place after an earlier '
+                             f'comparison differs from the value for fresh objects: {maxdiff(got, want)}',
+                             dict(v1=v1, v_new=v_new, v2=v2))
     # cosine family: positive scaling of either argument
     sc = float(rng.uniform(0.05, 20))
     if rng.integers(3) == 0:
